@@ -128,6 +128,16 @@ type SpecFile struct {
 	Opaques   []string
 	NoEffect  []string
 	Delegates map[string]string
+	Globals   []*GlobalInv
+}
+
+// GlobalInv: an assumed invariant of package-level variables (assumed at entry of every
+// function of the package; the variables it mentions must not be assigned outside init).
+type GlobalInv struct {
+	Pkg  string
+	Name string
+	E    *Expr
+	Src  string
 }
 
 // ---------------------------------------------------------------------------
@@ -559,7 +569,7 @@ var clauseKeywords = map[string]bool{
 	"valid": true, "inline": true, "pure": true, "wraps": true, "maypanic": true, "theory": true,
 	"package": true, "import": true, "opaque": true, "split": true, "noeffect": true, "trusted": true,
 	"case": true, "alloc": true, "unroll": true, "interface": true, "nooverflow": true, "havocs": true,
-	"reads": true, "bounded": true, "skip": true, "delegate": true,
+	"reads": true, "bounded": true, "skip": true, "delegate": true, "global": true,
 }
 
 type rawLine struct {
@@ -615,6 +625,16 @@ func ParseSpecFile(path, defaultPkg string) (*SpecFile, error) {
 				return nil, fail(fmt.Errorf("import alias path"))
 			}
 			sf.Imports[f[0]] = f[1]
+		case "global":
+			i := strings.Index(rest, ":")
+			if i < 0 {
+				return nil, fail(fmt.Errorf("global name: expr"))
+			}
+			e, err := ParseExpr(rest[i+1:])
+			if err != nil {
+				return nil, fail(err)
+			}
+			sf.Globals = append(sf.Globals, &GlobalInv{Pkg: sf.Pkg, Name: strings.TrimSpace(rest[:i]), E: e, Src: strings.TrimSpace(rest[i+1:])})
 		case "delegate":
 			// delegate (Type) field
 			j := strings.Index(rest, ")")
